@@ -268,8 +268,8 @@ func init() {
 		"runtime.GC":         noop,
 		"runtime.KeepAlive":  noop,
 		"runtime.Gosched":    noop,
-		"(*sync.Mutex).Lock": noop, "(*sync.Mutex).Unlock": noop,
-		"(*sync.RWMutex).Lock": noop, "(*sync.RWMutex).Unlock": noop, "(*sync.RWMutex).RLock": noop, "(*sync.RWMutex).RUnlock": noop,
+		"(*sync.Mutex).Lock": lockFn(1), "(*sync.Mutex).Unlock": lockFn(-1),
+		"(*sync.RWMutex).Lock": lockFn(1), "(*sync.RWMutex).Unlock": lockFn(-1), "(*sync.RWMutex).RLock": noop, "(*sync.RWMutex).RUnlock": noop,
 		"(*sync.Once).Do": func(ex *Exec, fn *ssa.Function, args []Value, pos token.Pos) Value {
 			panic(stopf(StopUnsupported, "sync.Once.Do"))
 		},
@@ -311,6 +311,18 @@ func sortSlice(stable bool) intrinsic {
 				}
 				s.a[j], s.a[j-1] = s.a[j-1], s.a[j]
 			}
+		}
+		return nil
+	}
+}
+
+// lockFn tracks the number of write locks held: stores made under a held
+// sync.Mutex / RWMutex write lock are logged as synchronised ("-locked").
+func lockFn(d int) func(ex *Exec, fn *ssa.Function, args []Value, pos token.Pos) Value {
+	return func(ex *Exec, fn *ssa.Function, args []Value, pos token.Pos) Value {
+		ex.lockDepth += d
+		if ex.lockDepth < 0 {
+			ex.lockDepth = 0
 		}
 		return nil
 	}
